@@ -1000,6 +1000,29 @@ func (r *run) malformed(op map[string]any, ln *Line) {
 		res := srv.AcceptOne(8 * time.Second)
 		r.record(ln, res)
 		<-done
+	case "resetAfterHandshake":
+		// a peer that completes a well-formed credential-fetch handshake (any self-generated key will do) and whose socket
+		// is reset right after its last flight: the server's own close of the connection then fails
+		protos, _ := nodetls.BreakIntoNextProtos(nodeenrollment.FetchNodeCredsNextProtoV1Prefix, r.validFetchB64(false))
+		c, err := net.DialTimeout(network, srv.Addr, 2*time.Second)
+		if err != nil {
+			ln.Res, ln.Err = "harness-error", err.Error()
+			return
+		}
+		if tcp, ok := c.(*net.TCPConn); ok {
+			_ = tcp.SetLinger(0) // close => RST
+		}
+		_ = c.SetDeadline(time.Now().Add(3 * time.Second))
+		cc, _ := srv.ClientCert(hs.Client{Ck: "kx", Chain: "self", Priv: true})
+		tc := tls.Client(c, &tls.Config{InsecureSkipVerify: true, NextProtos: protos, MinVersion: tls.VersionTLS13,
+			GetClientCertificate: func(*tls.CertificateRequestInfo) (*tls.Certificate, error) { return cc, nil }})
+		herr := tc.Handshake()
+		c.Close() // the raw socket, without a TLS close_notify
+		if herr != nil {
+			ln.Obs.ClientErr = herr.Error()
+		}
+		res := srv.AcceptOne(8 * time.Second)
+		r.record(ln, res)
 	case "stallSilent", "stallPartial", "stallAfterHello":
 		// a peer that opens a connection and then keeps the handshake open without completing it; while it
 		// does, an honest registered node dials.  The peer goes away after the hold.
